@@ -301,7 +301,8 @@ Inductive ep :=
 | BaseTell | ESTell | GAETell | GAETellDqd | GOETellDqd
 | SchedTell | SchedTellDqd | BanditTell
 | AdamCtor | AdamReset | AdamStep | GAscCtor | GAscReset | GAscStep
-| ParallelAxes | HeatmapDf.
+| ParallelAxes | HeatmapDf
+| EmitterAsk.
 
 Definition ep_of_nat (n : nat) : option ep :=
   match n with
@@ -316,7 +317,7 @@ Definition ep_of_nat (n : nat) : option ep :=
   | 35 => Some GACtor | 36 => Some BaseTell | 37 => Some ESTell | 38 => Some GAETell | 39 => Some GAETellDqd
   | 40 => Some GOETellDqd | 41 => Some SchedTell | 42 => Some SchedTellDqd | 43 => Some BanditTell
   | 44 => Some AdamCtor | 45 => Some AdamReset | 46 => Some AdamStep | 47 => Some GAscCtor | 48 => Some GAscReset
-  | 49 => Some GAscStep | 50 => Some ParallelAxes | 51 => Some HeatmapDf
+  | 49 => Some GAscStep | 50 => Some ParallelAxes | 51 => Some HeatmapDf | 52 => Some EmitterAsk
   | _ => None
   end.
 
@@ -327,13 +328,13 @@ Definition all_eps : list ep :=
    IndexOf; IndexOfSingle; CVTCtorCentroids; CVTCtorSamples; GridCtor; CqdScore; ComputeNovelty;
    GaussianCtor; IsoLineCtor; ESCtor; GAECtor; GOECtor; GACtor;
    BaseTell; ESTell; GAETell; GAETellDqd; GOETellDqd; SchedTell; SchedTellDqd; BanditTell;
-   AdamCtor; AdamReset; AdamStep; GAscCtor; GAscReset; GAscStep; ParallelAxes; HeatmapDf].
+   AdamCtor; AdamReset; AdamStep; GAscCtor; GAscReset; GAscStep; ParallelAxes; HeatmapDf; EmitterAsk].
 
 (** argument counts: (without optional extra field, with) *)
 Definition arities (e : ep) : list nat :=
   match e with
   | StoreAdd => [4] | StoreRetrieve => [1] | StoreFromRaw => [2]
-  | StoreData | StoreIter | StoreRaw | StoreOccupied | SampleElites | ArchiveData | BestElite | ArchiveIter => [0]
+  | StoreData | StoreIter | StoreRaw | StoreOccupied | SampleElites | ArchiveData | BestElite | ArchiveIter | EmitterAsk => [0]
   | ArchiveAdd | ArchiveAddSingle | SlidingAdd | SlidingAddSingle | ProximityAdd | ProximityAddSingle => [3; 4]
   | ArchiveRetrieve | ArchiveRetrieveSingle | IndexOf | IndexOfSingle | CVTCtorCentroids | CVTCtorSamples => [1]
   | GridCtor | CqdScore | ComputeNovelty => [2]
@@ -354,6 +355,7 @@ Definition n_variants (e : ep) : nat :=
   | ESTell | GAETell => 2 | GAETellDqd | GOETellDqd => 2
   | SchedTell | BanditTell | SchedTellDqd => 6
   | ParallelAxes => 2
+  | EmitterAsk => 4
   | _ => 1
   end.
 
@@ -361,9 +363,11 @@ Definition n_variants (e : ep) : nat :=
 Definition T (k : nat) : var := 20 + k.
 
 (* ---------------------------------------------------------------------------------------------- *)
-(** ribs/_utils.py: validate_batch -- every array-like is passed through np.asarray WITHOUT dtype
-    (105, 122, 132, 143 data; 158, 168, 177 add_info; 190 jacobian) and rebinds data[name]. *)
-Definition validate_batch (regs : list var) : list instr := map (fun r => IAsarray r r false) regs.
+(** ribs/_utils.py: validate_batch -- every array-like is passed through np.asarray and rebinds data[name]; WITHOUT dtype
+    (105, 132, 143 data; 158, 168, 177 add_info; 190 jacobian) except the objective (124: dtype=archive.dtypes["objective"],
+    as validate_single does).  In every caller the registers are  solution objective measures ...  : objective is register 1. *)
+Definition validate_batch (regs : list var) : list instr :=
+  map (fun kr => IAsarray (snd kr) (snd kr) (Nat.eqb (fst kr) 1)) (combine (seq 0 (length regs)) regs).
 
 (** ribs/_utils.py: validate_single -- solution (205) and measures (217) np.asarray, objective np_scalar (213,
     a fresh scalar); extra fields are NOT converted. *)
@@ -770,6 +774,22 @@ Definition prog_gen (copy : bool) (e : ep) (variant nargs : nat) : list instr :=
           else [])
       ++ [ICopy (T 2) (T 1); ICopy (T 3) (T 1)]            (* 173-174 get_field: to_numpy(copy=True) *)
   | HeatmapDf => [IAsarray (T 1) 0 true; ICopy (T 2) (T 1); ICopy (T 3) (T 1)]
+  (* ---- emitters: ask / ask_dqd (no array arguments; what is handed out) ---- *)
+  | EmitterAsk =>
+      match variant with
+      | 1 =>                                               (* ES / GAE.ask: opt.ask() allocates self._solutions anew (_cma_es.py 190) and
+                                                              returns readonly(self._solutions) (221) *)
+          [IOp (T 1) [] 100; ISetSelf F_i0 (T 1); IReadonly (T 2) (T 1); IReturn (T 2)]
+      | 2 =>                                               (* GOE.ask_dqd: self._parents = sol; return self._parents (fresh, kept) *)
+          [IGetSelf (T 1) F_solution; IOp (T 2) [T 1] 1; IOp (T 3) [T 2] 102; ISetSelf F_i1 (T 3); IReturn (T 3)]
+      | 3 =>                                               (* GAE.ask_dqd (_gradient_arborescence_emitter.py 261)
+                                                              [C12-required copy; unchanged code returns the VIEW theta[None] of the gradient
+                                                               optimizer's theta, which step() later updates in place: FC12c] *)
+          [IGetSelf (T 1) F_i2] ++ (if copy then [ICopy (T 2) (T 1)] else [IView (T 2) (T 1) true]) ++ [IReturn (T 2)]
+      | _ =>                                               (* Gaussian / IsoLine / GA / GOE.ask: parents from sample_elites (fresh) or x0 /
+                                                              initial_solutions, + noise, np.clip: fresh *)
+          [IGetSelf (T 1) F_solution; IOp (T 2) [T 1] 1; IOp (T 3) [T 2] 102; IReturn (T 3)]
+      end
   end.
 
 Definition prog := prog_gen true.
